@@ -202,6 +202,7 @@ impl Metadata {
 /// `write_all` writes at the cursor (std::fs semantics: overwrite, extend at
 /// the end) and advances it.
 #[verifier::external_body]
+#[verifier::reject_recursive_types(W)]
 pub struct BufWriter<W> { _w: core::marker::PhantomData<W> }
 impl View for BufWriter<File> {
     type V = FileV;
